@@ -1,36 +1,50 @@
-use grep_regex::RegexMatcher;
+use grep_regex::RegexMatcherBuilder;
 use grep_searcher::{SearcherBuilder, Sink, SinkMatch, SinkContext, Searcher, SinkFinish};
-struct Log(Vec<String>, usize);
-impl Log { fn go(&mut self) -> bool { if self.1 == 0 { return false } self.1 -= 1; true } }
+struct Log(Vec<String>);
 impl Sink for Log {
     type Error = std::io::Error;
-    fn matched(&mut self, _: &Searcher, m: &SinkMatch<'_>) -> Result<bool, Self::Error> { self.0.push(format!("M{}:{}", m.line_number().unwrap(), String::from_utf8_lossy(m.bytes()).trim_end())); Ok(self.go()) }
-    fn context(&mut self, _: &Searcher, m: &SinkContext<'_>) -> Result<bool, Self::Error> { self.0.push(format!("C{}:{}", m.line_number().unwrap(), String::from_utf8_lossy(m.bytes()).trim_end())); Ok(self.go()) }
-    fn context_break(&mut self, _: &Searcher) -> Result<bool, Self::Error> { self.0.push("--".into()); Ok(self.go()) }
+    fn matched(&mut self, _: &Searcher, m: &SinkMatch<'_>) -> Result<bool, Self::Error> { self.0.push(format!("M{:?}@{}:{:?}", m.line_number(), m.absolute_byte_offset(), String::from_utf8_lossy(m.bytes()))); Ok(true) }
+    fn context(&mut self, _: &Searcher, m: &SinkContext<'_>) -> Result<bool, Self::Error> { self.0.push(format!("C{:?}@{}:{:?}", m.line_number(), m.absolute_byte_offset(), String::from_utf8_lossy(m.bytes()))); Ok(true) }
+    fn context_break(&mut self, _: &Searcher) -> Result<bool, Self::Error> { self.0.push("--".into()); Ok(true) }
     fn finish(&mut self, _: &Searcher, f: &SinkFinish) -> Result<(), Self::Error> { self.0.push(format!("F{}", f.byte_count())); Ok(()) }
 }
-struct OneByte<'a>(&'a [u8]);
-impl<'a> std::io::Read for OneByte<'a> { fn read(&mut self, b: &mut [u8]) -> std::io::Result<usize> { if self.0.is_empty() || b.is_empty() {return Ok(0)} b[0]=self.0[0]; self.0=&self.0[1..]; Ok(1) } }
-fn run(hay: &[u8], mode: u8, invert: bool, a: usize, b: usize, snm: bool, k: usize) -> Vec<String> {
-    let m = RegexMatcher::new_line_matcher("b").unwrap();
-    let mut s = SearcherBuilder::new().invert_match(invert).stop_on_nonmatch(snm).line_number(true).after_context(a).before_context(b).build();
-    let mut log = Log(vec![], k);
-    match mode { 0 => s.search_slice(&m, hay, &mut log).unwrap(), 1 => s.search_reader(&m, hay, &mut log).unwrap(), _ => s.search_reader(&m, OneByte(hay), &mut log).unwrap() }
-    log.0
+struct Chunk<'a>(&'a [u8], usize);
+impl<'a> std::io::Read for Chunk<'a> { fn read(&mut self, b: &mut [u8]) -> std::io::Result<usize> { let n = self.1.min(self.0.len()).min(b.len()); b[..n].copy_from_slice(&self.0[..n]); self.0=&self.0[n..]; Ok(n) } }
+#[derive(Clone, Copy, Debug)]
+struct Cfg { snm: bool, invert: bool, a: usize, b: usize, passthru: bool, ml: bool, crlf: bool, ln: bool, heap: Option<usize> }
+fn run(pat: &str, hay: &[u8], mode: u8, c: Cfg) -> Result<Vec<String>, String> {
+    let m = RegexMatcherBuilder::new().line_terminator(Some(b'\n')).crlf(c.crlf).build(pat).map_err(|e| e.to_string())?;
+    let mut sb = SearcherBuilder::new();
+    sb.stop_on_nonmatch(c.snm).invert_match(c.invert).line_number(c.ln).multi_line(c.ml).binary_detection(grep_searcher::BinaryDetection::none());
+    if c.passthru { sb.passthru(true); } else { sb.after_context(c.a).before_context(c.b); }
+    if c.crlf { sb.line_terminator(grep_matcher::LineTerminator::crlf()); }
+    if mode >= 1 { sb.heap_limit(c.heap); }
+    let mut s = sb.build();
+    let mut log = Log(vec![]);
+    let r = match mode { 0 => s.search_slice(&m, hay, &mut log), 1 => s.search_reader(&m, hay, &mut log), 2 => s.search_reader(&m, Chunk(hay, 1), &mut log), _ => s.search_reader(&m, Chunk(hay, 3), &mut log) };
+    r.map_err(|e| e.to_string())?;
+    Ok(log.0)
 }
 fn main() {
+    let pats = ["b", "^$", "b$", "^b", "a|b", "x*", "\\bb", "b\\b", "."];
+    let alphabet: [&[u8]; 4] = [b"a\n", b"b\n", b"\n", b"ab b\n"];
     let mut bad = 0; let mut n = 0;
-    for len in 1..=7u32 { for bits in 0..(1u32<<len) {
-        let mut hay = Vec::new();
-        for i in 0..len { hay.extend_from_slice(if bits>>i & 1 == 1 { b"b\n" } else { b"a\n" }); }
-        for invert in [false, true] { for a in 0..3 { for b in 0..3 {
-          for snm in [false, true] { for k in [0usize,1,2,3,5,1000] {
-            let strip = |v: Vec<String>| -> Vec<String> { if snm || k < 1000 { v.into_iter().filter(|x| !x.starts_with("F")).collect() } else { v } };
-            let r0 = strip(run(&hay, 0, invert, a, b, snm, k)); let r1 = strip(run(&hay, 1, invert, a, b, snm, k)); let r2 = strip(run(&hay, 2, invert, a, b, snm, k));
-            n += 1;
-            if r0 != r1 || r1 != r2 { bad += 1; if bad < 6 { println!("DIFF snm={} {:?} invert={} A={} B={}\n slice={:?}\n reader={:?}\n 1byte={:?}", snm, String::from_utf8_lossy(&hay), invert, a, b, r0, r1, r2); } }
-          }}
-        }}}
-    }}
+    for len in 0..=4u32 { for code in 0..(4u32.pow(len)) { for tail in [true, false] {
+        let mut hay = Vec::new(); let mut c = code;
+        for _ in 0..len { hay.extend_from_slice(alphabet[(c % 4) as usize]); c /= 4; }
+        if !tail { if hay.last() == Some(&b'\n') { hay.pop(); } else { continue; } }
+        for pat in pats { for invert in [false, true] { for (a, b, passthru) in [(0,0,false),(1,0,false),(0,1,false),(2,1,false),(0,0,true)] { for ml in [false, true] { for crlf in [false] { for ln in [true] { for snm in [false, true] { for heap in [None, Some(5usize), Some(7), Some(12)] {
+            let cfg = Cfg { snm, invert, a, b, passthru, ml, crlf, ln, heap };
+            let r0 = run(pat, &hay, 0, cfg);
+            for mode in 1..=3u8 {
+                let r = run(pat, &hay, mode, cfg);
+                n += 1;
+                let strip = |v: Result<Vec<String>, String>| v.map(|v| if snm { v.into_iter().filter(|x| !x.starts_with('F')).collect::<Vec<_>>() } else { v });
+                let (r, r0) = (strip(r), strip(r0.clone()));
+                if r.is_err() { continue; }
+                if r != r0 { bad += 1; if bad < 12 { println!("DIFF pat={:?} hay={:?} mode={} {:?}\n slice={:?}\n other={:?}", pat, String::from_utf8_lossy(&hay), mode, cfg, r0, r); } }
+            }
+        }}}}}}}}
+    }}}
     println!("cases={} differing={}", n, bad);
 }
